@@ -26,6 +26,21 @@ def run(ctx: Ctx, chk) -> None:
 
     chk.run_rule(_c08.flush_total, ctx)
     chk.run_rule(sb.buffer_once, ctx)
+    chk.run_rule(sb.buffer_plain, ctx)
+    chk.run_rule(reply_unbuffered, ctx)
+    from . import c12 as _c12
+
+    chk.run_rule(_c12.send_dispatches, ctx)
+
+
+def reply_unbuffered(ctx: Ctx, chk) -> None:
+    """A command parked by the user is replaced only by a newer *user* command: what the handlers send on their own
+    account (the value reply of a req, config / time / id replies) never goes through the parking branch."""
+    from . import c06
+    from .common import OnlyRule
+
+    proxy = OnlyRule(chk, "UNBUF-1", "REPLY-UNBUF", " - sent through the parking branch, a handler's own reply to a sleeping node takes the buffer slot of the command the user parked for that (node, child, type): the user's command is never written at the wake (the old value is)", "the buffer holds user commands only: every gateway.send in handler code passes the literal message_buffer=False (except the single marker-recording send), so a handler's reply can never replace a parked command")
+    c06.unbuf1(ctx, proxy)
 
 
 def keep1(ctx: Ctx, chk) -> None:
